@@ -3,8 +3,10 @@
 package interp
 
 import (
+	"fmt"
 	"io/fs"
 
+	"github.com/wader/fq/pkg/bitio"
 	"github.com/wader/gojq"
 )
 
@@ -48,4 +50,19 @@ func VerifC13BinaryFields(v any) (start, length int64, unit int, pad int64, ok b
 		return 0, 0, 0, 0, false
 	}
 	return b.r.Start, b.r.Len, b.unit, b.pad, true
+}
+
+// VerifC13BitsFormat runs the real OptionsFromValue on v and then the bits format function it
+// returned (Options.BitsFormatFn, the closure every binary / raw decode value conversion uses)
+// on nbytes zero bytes. It shows which options the closure actually captured.
+func VerifC13BitsFormat(v any, nbytes int) (string, error) {
+	o, err := OptionsFromValue(v)
+	if err != nil {
+		return "", err
+	}
+	r, err := o.BitsFormatFn(bitio.NewBitReader(make([]byte, nbytes), -1))
+	if err != nil {
+		return "", err
+	}
+	return fmt.Sprintf("%v", r), nil
 }
